@@ -182,9 +182,9 @@ static void gen_program(uint64_t rseed, uint64_t idx, const char *tier, sbuf_t *
   int nt = nts[rng_below(&r, 8)];
   if (control && nt > 4) nt = 4;
   int nops = gen_nops();
-  if (!control && idx % 5 == 4) { /* focused case: 2-3 threads run the SAME operation in its deep regimes (smallest caches, dimensions beyond 256, PLE beyond L3/8), one or two calls each:
+  if (!control && idx % 2 == 1) { /* focused case: 2-3 threads run the SAME operation in its deep regimes (smallest caches, dimensions beyond 256, PLE beyond L3/8), one or two calls each:
                                      shared state that only the recursive / wide code paths touch */
-    const char *fop = gen_all_ops[(idx / 5) % (uint64_t)nops];
+    const char *fop = gen_all_ops[(idx / 2) % (uint64_t)nops];
     o->n = 0; if (o->s) o->s[0] = 0;
     sb_printf(o, "# m4sim engine=thr scenario=threads lib=ts\nlib ts\nknobs 4096 32768 65536\n");
     par_emit_cfg(o, &c);
